@@ -1400,6 +1400,45 @@ Definition collected_keys_are_sorted : bool :=
 Lemma collected_keys_sorted : collected_keys_are_sorted = true.
 Proof. vm_compute. reflexivity. Qed.
 
+(* ---- the key order of map-valued options, per key KIND (seeded C14-H: a comparator with a switch over the key kind that
+   lacks arms leaves the entries of e.g. a map<sint32, ...> in Map.Range order).  walkOptionMap sorts the entries by the
+   PRINTED key (marshalSingular's text) as Go strings, whatever the kind: that is [map_entries].  The translator reports every
+   switch over protoreflect kinds in the comparator handed to the sort call (and in the package functions it calls) and in
+   everything else walkOptionMap calls; every kind a map key can have must have an arm in each of them, and the comparator
+   must be the kind-agnostic one the model has *)
+Inductive key_kind := KBool | KInt32 | KSint32 | KSfixed32 | KInt64 | KSint64 | KSfixed64 | KUint32 | KFixed32 | KUint64 | KFixed64 | KString.
+Definition all_key_kinds : list key_kind :=
+  [KBool; KInt32; KSint32; KSfixed32; KInt64; KSint64; KSfixed64; KUint32; KFixed32; KUint64; KFixed64; KString].
+Lemma all_key_kinds_complete : forall k, In k all_key_kinds.
+Proof. intros []; cbn; tauto. Qed.
+Definition key_kind_name (k : key_kind) : string :=
+  match k with
+  | KBool => "BoolKind" | KInt32 => "Int32Kind" | KSint32 => "Sint32Kind" | KSfixed32 => "Sfixed32Kind"
+  | KInt64 => "Int64Kind" | KSint64 => "Sint64Kind" | KSfixed64 => "Sfixed64Kind" | KUint32 => "Uint32Kind"
+  | KFixed32 => "Fixed32Kind" | KUint64 => "Uint64Kind" | KFixed64 => "Fixed64Kind" | KString => "StringKind"
+  end.
+(* the model's order of the entries of a map whose keys have kind k: the same function for every kind, as in the code *)
+Definition map_entries_of_kind (k : key_kind) (range_order : list (bytes * bytes)) : list (bytes * bytes) := map_entries range_order.
+Definition strs_subset (a b : list string) : bool := forallb (fun x => existsb (String.eqb x) b) a.
+Definition kind_has_arm (k : key_kind) (sw : string * list string * bool) : bool := existsb (String.eqb (key_kind_name k)) (snd (fst sw)).
+Definition map_key_kinds_covered : bool :=
+  (* the translator's list of map-key kinds is the model's *)
+  strs_subset (map key_kind_name all_key_kinds) MapRangeGen.map_key_kinds && strs_subset MapRangeGen.map_key_kinds (map key_kind_name all_key_kinds)
+  (* a sort call follows the Range, with a function-literal comparator (one the translator can look into) *)
+  && fst MapRangeGen.map_key_sort && snd MapRangeGen.map_key_sort
+  (* the key is printed by something that switches over the kind, and every kind has an arm in every such switch *)
+  && negb (Nat.eqb (List.length MapRangeGen.map_key_print_switches) 0)
+  && forallb (fun k => forallb (kind_has_arm k) MapRangeGen.map_key_cmp_switches && forallb (kind_has_arm k) MapRangeGen.map_key_print_switches) all_key_kinds.
+Lemma map_key_kinds_are_covered : map_key_kinds_covered = true.
+Proof. vm_compute. reflexivity. Qed.
+(* the comparator does not look at the key kind at all: the order is the printed keys' string order for every kind *)
+Definition map_key_comparator_kind_agnostic : bool := Nat.eqb (List.length MapRangeGen.map_key_cmp_switches) 0.
+Lemma map_key_comparator_is_kind_agnostic : map_key_comparator_kind_agnostic = true.
+Proof. vm_compute. reflexivity. Qed.
+Lemma map_entries_of_kind_perm k l1 l2 :
+  Permutation l1 l2 -> distinct_on (fun kv : bytes * bytes => fst kv) l1 -> map_entries_of_kind k l1 = map_entries_of_kind k l2.
+Proof. exact (map_entries_perm l1 l2). Qed.
+
 (* the extensions j5convert sets, grouped by the options message they are set on: for the blocks
    printed in OptionsFor order (message, service, method, enum options) the indexes are pairwise
    distinct, so options_for_perm applies; for field-like blocks (re-sorted by name) the names are *)
